@@ -55,6 +55,13 @@ fn worker(a: &[String]) -> i32 {
         None => return 2,
     };
     let mut ctx = Ctx::new(tier, seed, idx, n);
+    ctx.out_path = out.clone();
+    ctx.progress = std::fs::File::create(format!("{out}.progress")).ok();
+    if let Ok(t) = std::env::var("VERIF_TRACE_AT") {
+        if let Some((s, k)) = t.split_once(':') {
+            ctx.trace_at = k.parse().ok().map(|k| (s.to_string(), k));
+        }
+    }
     let mut per_sub = BTreeMap::new();
     for sub in &prop.subs {
         if let Ok(only) = std::env::var("VERIF_ONLY_SUB") {
@@ -104,6 +111,32 @@ fn replay(a: &[String]) -> i32 {
             return 2;
         }
     };
+    // run the case in a child so that a crash of the library is a verdict, not the end of the tool
+    if std::env::var("VERIF_REPLAY_CHILD").is_err() {
+        use std::os::unix::process::ExitStatusExt;
+        let exe = std::env::current_exe().unwrap();
+        let st = Command::new(exe).args(["replay", path]).env("VERIF_REPLAY_CHILD", "1").stdin(Stdio::null()).status();
+        return match st {
+            Ok(st) => match (st.code(), st.signal()) {
+                (Some(c), _) => c,
+                (None, Some(sig)) => {
+                    let id = std::fs::read_to_string(path)
+                        .ok()
+                        .and_then(|t| serde_json::from_str::<J>(&t).ok())
+                        .and_then(|j| j["property"].as_str().map(|s| s.to_string()))
+                        .unwrap_or_default();
+                    println!("FAIL property={id}: the process running this case was killed by signal {sig} (stack exhaustion or abort inside the library)");
+                    println!("VIOLATION property={id} replay={path}");
+                    1
+                }
+                _ => 2,
+            },
+            Err(e) => {
+                eprintln!("cannot spawn replay child: {e}");
+                2
+            }
+        };
+    }
     install_panic_hook();
     let txt = match std::fs::read_to_string(path) {
         Ok(t) => t,
@@ -327,7 +360,12 @@ fn parent(id: &str, rest: &[String]) -> i32 {
         let j = match &o.j {
             Some(j) => j,
             None => {
-                inconclusive.push(format!("worker {wi} ended without a result ({})", o.status));
+                // the worker died (signal, abort): find the case it was running
+                match trace_dead_worker(&prop, id, tier, seed, wi, n, &work, &vd) {
+                    Ok(Some((p, m))) => violations.push((p, m)),
+                    Ok(None) => inconclusive.push(format!("worker {wi} ended without a result ({}) and the case could not be isolated", o.status)),
+                    Err(e) => inconclusive.push(format!("worker {wi} ended without a result ({}): {e}", o.status)),
+                }
                 continue;
             }
         };
@@ -402,6 +440,20 @@ fn parent(id: &str, rest: &[String]) -> i32 {
             }
         }
     }
+    // 3b. coverage-guided campaign (thorough tier, byte-string domains)
+    let mut fuzz_stats: Option<J> = None;
+    if tier == Tier::Thorough && violations.is_empty() && std::env::var("VERIF_NO_FUZZ").is_err() {
+        if let Some(target) = fuzz_target_of(id) {
+            match run_fuzz(&prop, id, target, seed, n, &work, &vd) {
+                Ok((stats, mut v, mut inc)) => {
+                    fuzz_stats = Some(stats);
+                    violations.append(&mut v);
+                    inconclusive.append(&mut inc);
+                }
+                Err(e) => inconclusive.push(format!("fuzz campaign: {e}")),
+            }
+        }
+    }
     if let Some(b) = biggest {
         samples.push(json!({"largest_nontrivial_case": b}));
     }
@@ -425,6 +477,9 @@ fn parent(id: &str, rest: &[String]) -> i32 {
     coverage.insert("inconclusive".into(), json!(inconclusive));
     for (k, v) in extra {
         coverage.insert(k, v);
+    }
+    if let Some(f) = fuzz_stats {
+        coverage.insert("fuzz".into(), f);
     }
     let ev = json!({
         "property_id": id,
@@ -475,4 +530,180 @@ fn write_replay(vd: &str, id: &str, sub: &str, case: &J, msg: &str) -> String {
     let p = format!("{vd}/replays/{id}-{sub}-{:016x}.json", h);
     std::fs::write(&p, serde_json::to_string_pretty(&body).unwrap()).ok();
     p
+}
+
+
+// ---------------------------------------------------------------------------------
+// libFuzzer campaigns (thorough tier). The targets live in /verif/fuzz and carry the same
+// oracles as the proptest sub-checks; an artifact is re-judged through the sub-check's
+// replay function before it is reported.
+
+fn fuzz_target_of(id: &str) -> Option<(&'static str, &'static str, u32)> {
+    // (target binary, sub-check used to re-judge an artifact, max_len)
+    match id {
+        "C02" => Some(("c02_text", "soup", 512)),
+        "C08" => Some(("c08_eval", "eval", 256)),
+        "C09" => Some(("c09_path", "raw", 256)),
+        "C10" => Some(("c10_bytes", "raw", 256)),
+        "C16" => Some(("c16_keypath", "raw", 128)),
+        _ => None,
+    }
+}
+
+fn artifact_case(id: &str, bytes: &[u8]) -> Option<J> {
+    use vcore::jser::Jser;
+    if id == "C08" {
+        vcore::props::c08::case_from_bytes(bytes).map(|c| c.to_j())
+    } else {
+        Some(vcore::jser::Bytes(bytes.to_vec()).to_j())
+    }
+}
+
+#[allow(clippy::type_complexity)]
+fn run_fuzz(
+    prop: &props::Prop,
+    id: &str,
+    target: (&'static str, &'static str, u32),
+    seed: u64,
+    n: usize,
+    work: &str,
+    vd: &str,
+) -> Result<(J, Vec<(String, String)>, Vec<String>), String> {
+    let (bin, subn, max_len) = target;
+    let exe = format!("{vd}/target-fuzz/x86_64-unknown-linux-gnu/release/{bin}");
+    if !std::path::Path::new(&exe).exists() {
+        return Err(format!("fuzz target {exe} is not built (the thorough wrapper builds it with cargo +nightly fuzz build)"));
+    }
+    let secs: u64 = std::env::var("VERIF_FUZZ_SECS").ok().and_then(|s| s.parse().ok()).unwrap_or(120);
+    let seeds_dir = format!("{vd}/fuzz/seeds/{bin}");
+    let t0 = Instant::now();
+    let mut kids = vec![];
+    for i in 0..n {
+        let corpus = format!("{work}/fuzz-corpus-{i}");
+        let arts = format!("{work}/fuzz-artifacts-{i}/");
+        std::fs::create_dir_all(&corpus).ok();
+        std::fs::create_dir_all(&arts).ok();
+        let mut cmd = Command::new(&exe);
+        cmd.arg(&corpus);
+        if std::path::Path::new(&seeds_dir).exists() {
+            cmd.arg(&seeds_dir);
+        }
+        cmd.args([
+            format!("-seed={}", (seed.wrapping_mul(1000) + i as u64 + 1) & 0x7fff_ffff),
+            format!("-max_total_time={secs}"),
+            format!("-max_len={max_len}"),
+            "-len_control=0".to_string(),
+            "-print_final_stats=1".to_string(),
+            "-rss_limit_mb=0".to_string(),
+            "-malloc_limit_mb=0".to_string(),
+            "-timeout=20".to_string(),
+            format!("-artifact_prefix={arts}"),
+        ]);
+        let log = std::fs::File::create(format!("{work}/fuzz-{i}.log")).map_err(|e| e.to_string())?;
+        let child = cmd.stdin(Stdio::null()).stdout(Stdio::null()).stderr(log).spawn().map_err(|e| format!("spawn {exe}: {e}"))?;
+        kids.push(child);
+    }
+    for k in kids.iter_mut() {
+        let _ = k.wait();
+    }
+    let mut execs = 0u64;
+    let mut corpus_files = 0u64;
+    let mut violations = vec![];
+    let mut inconclusive = vec![];
+    let sub = prop.subs.iter().find(|s| s.name == subn).ok_or("no such sub-check")?;
+    let mut seen = HashSet::new();
+    for i in 0..n {
+        if let Ok(t) = std::fs::read_to_string(format!("{work}/fuzz-{i}.log")) {
+            for l in t.lines() {
+                if let Some(v) = l.strip_prefix("stat::number_of_executed_units:") {
+                    execs += v.trim().parse::<u64>().unwrap_or(0);
+                }
+            }
+        }
+        corpus_files += std::fs::read_dir(format!("{work}/fuzz-corpus-{i}")).map(|d| d.count() as u64).unwrap_or(0);
+        if let Ok(rd) = std::fs::read_dir(format!("{work}/fuzz-artifacts-{i}")) {
+            for e in rd.filter_map(|e| e.ok()) {
+                let name = e.file_name().to_string_lossy().to_string();
+                let bytes = std::fs::read(e.path()).unwrap_or_default();
+                if name.starts_with("timeout-") || name.starts_with("oom-") || name.starts_with("slow-unit-") {
+                    inconclusive.push(format!("fuzz target {bin} reported {name} ({} bytes); not a violation", bytes.len()));
+                    continue;
+                }
+                let case = match artifact_case(id, &bytes) {
+                    Some(c) => c,
+                    None => continue,
+                };
+                known::set_strict(true);
+                let r = (sub.replay)(&case);
+                known::set_strict(false);
+                match r {
+                    Err(m) if m.starts_with("KNOWN:") => {}
+                    Err(m) if m.contains("[harness-internal]") => inconclusive.push(format!("fuzz artifact {name}: {m}")),
+                    Err(m) => {
+                        let key: String = m.chars().take(24).collect();
+                        if seen.insert(key) {
+                            let p = write_replay(vd, id, subn, &case, &m);
+                            violations.push((p, format!("(found by libFuzzer target {bin}) {m}")));
+                        }
+                    }
+                    Ok(()) => inconclusive.push(format!("fuzz artifact {name} of {bin} does not reproduce through the replay path")),
+                }
+            }
+        }
+    }
+    let stats = json!({
+        "target": bin, "processes": n, "seconds_each": secs, "fuzz_execs": execs,
+        "fuzz_corpus_files": corpus_files, "wall_s": t0.elapsed().as_secs_f64(),
+        "oracle": format!("same as sub-check '{subn}' (linked from vcore)"),
+    });
+    Ok((stats, violations, inconclusive))
+}
+
+
+/// A worker died without writing its result. Its progress file names the sub-check and the
+/// ordinal of the case it was about to run; the worker is re-run (same seed, hence the same
+/// case sequence) with an order to dump that case, and the dumped case is then confirmed in
+/// a fresh child through `vcheck replay`. A signal death there is the violation.
+#[allow(clippy::too_many_arguments)]
+fn trace_dead_worker(
+    prop: &props::Prop,
+    id: &str,
+    tier: Tier,
+    seed: u64,
+    wi: usize,
+    n: usize,
+    work: &str,
+    vd: &str,
+) -> Result<Option<(String, String)>, String> {
+    let out = format!("{work}/worker-{wi}.json");
+    let prog = std::fs::read_to_string(format!("{out}.progress")).map_err(|e| format!("no progress file: {e}"))?;
+    let mut it = prog.split_whitespace();
+    let (subn, k) = match (it.next(), it.next().and_then(|x| x.parse::<u64>().ok())) {
+        (Some(s), Some(k)) => (s.to_string(), k),
+        _ => return Err("progress file is empty (death outside a generated sub-check)".into()),
+    };
+    if !prop.subs.iter().any(|s| s.name == subn) {
+        return Err(format!("progress names unknown sub-check {subn}"));
+    }
+    let exe = std::env::current_exe().map_err(|e| e.to_string())?;
+    let _ = std::fs::remove_file(format!("{out}.inflight"));
+    let _ = Command::new(&exe)
+        .args(["--worker", id, tier.name(), &seed.to_string(), &wi.to_string(), &n.to_string(), &out])
+        .env("VERIF_TRACE_AT", format!("{subn}:{k}"))
+        .env("VERIF_ONLY_SUB", &subn)
+        .stdin(Stdio::null())
+        .stdout(Stdio::null())
+        .stderr(Stdio::null())
+        .status();
+    let txt = std::fs::read_to_string(format!("{out}.inflight")).map_err(|_| "the re-run did not reach the case".to_string())?;
+    let j: J = serde_json::from_str(&txt).map_err(|e| e.to_string())?;
+    let case = j["case"].clone();
+    let msg0 = format!("the checking process is killed while running this case (sub-check {subn}, case #{k} of worker {wi})");
+    let p = write_replay(vd, id, &subn, &case, &msg0);
+    // confirm in a fresh child
+    let st = Command::new(&exe).args(["replay", &p]).stdin(Stdio::null()).stdout(Stdio::null()).stderr(Stdio::null()).status().map_err(|e| e.to_string())?;
+    match st.code() {
+        Some(1) => Ok(Some((p, format!("{msg0}; replaying it alone fails too (a crash or a check failure, see `./vcheck replay`)")))),
+        _ => Ok(None),
+    }
 }
